@@ -7,6 +7,7 @@ import (
 	"os"
 	"path/filepath"
 	"runtime/pprof"
+	"strings"
 	"sync"
 	"time"
 
@@ -572,7 +573,10 @@ type VerifyJob struct {
 	ImportPath string
 	Allowed    []PayloadSpec // complete payloads that may legitimately be found
 	Again      PayloadSpec   // stored afterwards; must succeed and load exactly
-	Out        string
+	// Homes: cache homes (XDG_CACHE_HOME values) left behind by faulted stores. Their cache
+	// directory is moved, one after the other, to the root of this fresh process and examined.
+	Homes []string
+	Out   string
 }
 
 type VerifyOut struct {
@@ -586,56 +590,100 @@ type VerifyOut struct {
 	Err             string
 }
 
-// ChildVerify runs in a fresh process after a (faulted) store.
+// ChildVerify runs in a fresh process after (faulted) stores of other processes.
 func ChildVerify(args []string) int {
 	var job VerifyJob
 	ReadJob(args[0], &job)
 	root := Guard(job.Scratch)
-	out := VerifyOut{HitIndex: -1}
-	es, ts := Entries(root)
-	out.Entries, out.Temps = len(es), len(ts)
-	for _, e := range es {
-		b, err := os.ReadFile(e)
-		if err != nil {
-			out.IncompleteEntry = e + ": " + err.Error()
-		} else if err := StrictComplete(b); err != nil {
-			out.IncompleteEntry = fmt.Sprintf("%s (%d bytes): %v", e, len(b), err)
+	refs := map[PayloadSpec]string{}
+	ref := func(p PayloadSpec) (string, error) {
+		if r, ok := refs[p]; ok {
+			return r, nil
 		}
+		r, err := RefFP(p, fmt.Sprint("ref", len(refs)))
+		if err == nil {
+			refs[p] = r
+		}
+		return r, err
 	}
-	bc := DefaultCfg().BC()
-	bt := time.Unix(1700000000, 0)
-	var fresh cache.Cacheable = &Mock{}
-	if len(job.Allowed) > 0 {
-		fresh = job.Allowed[0].Fresh()
-	}
-	out.Hit, out.Panic = SafeLoad(bc, fresh, job.ImportPath, bt)
-	if out.Hit {
-		fp, _ := Fingerprint(fresh)
-		for i, a := range job.Allowed {
-			ref, err := RefFP(a, fmt.Sprint("allowed", i))
+	var outs []VerifyOut
+	for _, home := range job.Homes {
+		out := VerifyOut{HitIndex: -1}
+		src := filepath.Join(home, "gopherjs", "build_cache")
+		if !strings.HasPrefix(filepath.Clean(home)+"/", filepath.Clean(job.Scratch)+"/") {
+			out.Err = "home outside scratch"
+			outs = append(outs, out)
+			continue
+		}
+		// reference fingerprints are computed on an empty root first, then the root is replaced
+		// by the directory the faulted store left behind
+		os.RemoveAll(root)
+		var allowed []string
+		for _, a := range job.Allowed {
+			r, err := ref(a)
 			if err != nil {
 				out.Err = err.Error()
 			}
-			if ref == fp {
-				out.HitIndex = i
+			allowed = append(allowed, r)
+		}
+		againRef := ""
+		if job.Again != "" {
+			var err error
+			if againRef, err = ref(job.Again); err != nil {
+				out.Err = err.Error()
 			}
 		}
-	}
-	if job.Again != "" {
-		p, err := job.Again.Make()
-		if err != nil {
-			out.Err = err.Error()
-		} else {
-			out.AgainStored, _ = SafeStore(bc, p, job.ImportPath, bt)
-			fr := job.Again.Fresh()
-			if hit, _ := SafeLoad(bc, fr, job.ImportPath, bt); hit {
-				fp, _ := Fingerprint(fr)
-				ref, _ := RefFP(job.Again, "again")
-				out.AgainExact = fp == ref
+		os.RemoveAll(root)
+		os.MkdirAll(filepath.Dir(root), 0o755)
+		if _, err := os.Stat(src); err == nil {
+			if err := os.Rename(src, root); err != nil {
+				out.Err = "cannot move cache directory: " + err.Error()
+				outs = append(outs, out)
+				continue
 			}
 		}
+		es, ts := Entries(root)
+		out.Entries, out.Temps = len(es), len(ts)
+		for _, e := range es {
+			b, err := os.ReadFile(e)
+			if err != nil {
+				out.IncompleteEntry = e + ": " + err.Error()
+			} else if err := StrictComplete(b); err != nil {
+				out.IncompleteEntry = fmt.Sprintf("%s (%d bytes): %v", filepath.Base(e), len(b), err)
+			}
+		}
+		bc := DefaultCfg().BC()
+		bt := time.Unix(1700000000, 0)
+		var fresh cache.Cacheable = &Mock{}
+		if len(job.Allowed) > 0 {
+			fresh = job.Allowed[0].Fresh()
+		}
+		out.Hit, out.Panic = SafeLoad(bc, fresh, job.ImportPath, bt)
+		if out.Hit {
+			fp, _ := Fingerprint(fresh)
+			for i, r := range allowed {
+				if r == fp {
+					out.HitIndex = i
+				}
+			}
+		}
+		if job.Again != "" {
+			p, err := job.Again.Make()
+			if err != nil {
+				out.Err = err.Error()
+			} else {
+				out.AgainStored, _ = SafeStore(bc, p, job.ImportPath, bt)
+				fr := job.Again.Fresh()
+				if hit, _ := SafeLoad(bc, fr, job.ImportPath, bt); hit {
+					fp, _ := Fingerprint(fr)
+					out.AgainExact = fp == againRef
+				}
+			}
+		}
+		outs = append(outs, out)
 	}
-	WriteResult(job.Out, out)
+	os.RemoveAll(root)
+	WriteResult(job.Out, outs)
 	return 0
 }
 
@@ -699,7 +747,7 @@ func ConcWorker(root string, job ConcJob, refs []string, keyPath func() string) 
 			}
 		}
 		if i >= job.Iterations {
-			time.Sleep(300 * time.Microsecond) // keep observing without burning a core per reader
+			time.Sleep(500 * time.Microsecond) // keep observing without burning a core per reader
 		}
 		fr := job.Payloads[0].Fresh()
 		hit, pan := SafeLoad(bc, fr, job.ImportPath, bt)
